@@ -71,22 +71,32 @@ def _flat_of(optv, ns):
 def _items(ns):
     return _flat_of(ns.val('overrides'), ns), _flat_of(ns.val('remove'), ns), _flat_of(ns.val('additional'), ns)
 
-def origin(o, x, F0, F1, i0, i1):
-    """the edit o stored for item x is the last one the command line gives for x (a removal, or an override when nothing is removed)"""
-    j, j2 = z3.Int('j!or'), z3.Int('j2!or')
-    from_rm = z3.Exists([j], z3.And(0 <= j, j < i1, kof(F1[j], False) == x, is_edit(o, F1[j], z3.BoolVal(False)),
-                                    z3.ForAll([j2], z3.Implies(z3.And(j < j2, j2 < i1), kof(F1[j2], False) != x))))
-    from_ov = z3.Exists([j], z3.And(0 <= j, j < i0, kof(F0[j], True) == x, is_edit(o, F0[j], z3.BoolVal(True)),
-                                    z3.ForAll([j2], z3.Implies(z3.And(j < j2, j2 < i0), kof(F0[j2], True) != x)),
-                                    z3.ForAll([j2], z3.Implies(z3.And(0 <= j2, j2 < i1), kof(F1[j2], False) != x))))
-    return z3.Or(from_rm, from_ov)
+# ---- which edit is handed on for an item x = (section, key): the LAST removal given for x if there is one, else the LAST override given for x
+from pyvc.spec import SpecAcc
+# index in the first n items of the last one addressing x, or -1 (defined by recursion on n; unfolded where it is applied to the terms of a query)
+last_ov = SpecAcc('last_override_of', [KS, StrL], lambda x, F: z3.IntVal(-1), lambda x, F, t, prev: z3.If(kof(F[t], True) == x, t, prev), result=IntS)
+last_rm = SpecAcc('last_removal_of', [KS, StrL], lambda x, F: z3.IntVal(-1), lambda x, F, t, prev: z3.If(kof(F[t], False) == x, t, prev), result=IntS)
+def mentioned(x, F0, F1, i0, i1): return z3.Or(last_ov(x, F0, i0) >= 0, last_rm(x, F1, i1) >= 0)
+def handed_on(o, x, F0, F1, i0, i1):
+    """o is the edit the command line's last word on item x denotes"""
+    rm = last_rm(x, F1, i1) >= 0
+    return z3.If(rm, is_edit(o, F1[last_rm(x, F1, i1)], z3.BoolVal(False)), is_edit(o, F0[last_ov(x, F0, i0)], z3.BoolVal(True)))
+def last_wf(fn, hv, F, i):
+    x = z3.Const('x!lw', KS)
+    return z3.ForAll([x], z3.And(fn(x, F, i) >= -1, fn(x, F, i) < i, z3.Implies(fn(x, F, i) >= 0, kof(F[fn(x, F, i)], hv) == x)), patterns=[fn(x, F, i)])
+
+def order_by_index(d):
+    """the same two facts as odict_wf's first clause, spelled with positions (what the solvers can use for order[k])"""
+    x = z3.Const('x!oi', KS); i = z3.Int('i!oi')
+    return [z3.ForAll([i], z3.Implies(z3.And(0 <= i, i < z3.Length(d.order)), z3.Select(d.has, d.order[i]))),
+            z3.ForAll([x], z3.Implies(z3.Select(d.has, x), z3.Exists([i], z3.And(0 <= i, i < z3.Length(d.order), d.order[i] == x))))]
 
 def _dict_state(d, F0, F1, i0, i1):
-    x = z3.Const('x!ds', KS); j = z3.Int('j!ds')
-    return odict_wf(d) + [
-        z3.ForAll([x], z3.Implies(z3.Select(d.has, x), origin(z3.Select(d.get, x), x, F0, F1, i0, i1))),
-        z3.ForAll([j], z3.Implies(z3.And(0 <= j, j < i0), z3.Select(d.has, kof(F0[j], True)))),
-        z3.ForAll([j], z3.Implies(z3.And(0 <= j, j < i1), z3.Select(d.has, kof(F1[j], False))))]
+    x = z3.Const('x!ds', KS)
+    return odict_wf(d) + order_by_index(d) + [
+        z3.ForAll([x], z3.Select(d.has, x) == mentioned(x, F0, F1, i0, i1), patterns=[z3.Select(d.has, x)]),
+        z3.ForAll([x], z3.Implies(z3.Select(d.has, x), handed_on(z3.Select(d.get, x), x, F0, F1, i0, i1)), patterns=[z3.Select(d.get, x)]),
+        last_wf(last_ov, True, F0, i0), last_wf(last_rm, False, F1, i1)]
 
 def _adds_state(L, F2, n):
     j = z3.Int('j!ad')
@@ -98,6 +108,10 @@ def _wellformed_items(v):
             z3.ForAll([j], z3.Implies(z3.And(0 <= j, j < z3.Length(F1)), item_ok(F1[j], z3.BoolVal(False)))),
             z3.ForAll([j], z3.Implies(z3.And(0 <= j, j < z3.Length(F2)), item_ok(F2[j], z3.BoolVal(True))))]
 
+def same_members(a, b):
+    x = z3.String('x!sm')
+    return z3.ForAll([x], z3.Contains(a, z3.Unit(x)) == z3.Contains(b, z3.Unit(x)))
+
 def _parser_of(res):
     """the ConfigParser behind the result: the result itself, or the parser a filtered view presents"""
     if res.sort() == CPo: return res, None
@@ -105,29 +119,65 @@ def _parser_of(res):
 
 def _mk_post(v, old, res):
     F0, F1, F2 = _items(old); P, view = _parser_of(res)
-    OL, AL = cp_ov(P), cp_ad(P); k, k2, j = z3.Int('k!mp'), z3.Int('k2!mp'), z3.Int('j!mp')
+    OL, AL = cp_ov(P), cp_ad(P); k, k2 = z3.Int('k!mp'), z3.Int('k2!mp'); x = z3.Const('x!mp', KS)
     n0, n1 = z3.Length(F0), z3.Length(F1)
     sp = old.val('species')
     out = [cp_fp(P) == old.cfg_file,
-           z3.ForAll([k], z3.Implies(z3.And(0 <= k, k < z3.Length(OL)), origin(OL[k], keyof(OL[k]), F0, F1, n0, n1))),
-           z3.ForAll([j], z3.Implies(z3.And(0 <= j, j < n0), z3.Exists([k], z3.And(0 <= k, k < z3.Length(OL), keyof(OL[k]) == kof(F0[j], True))))),
-           z3.ForAll([j], z3.Implies(z3.And(0 <= j, j < n1), z3.Exists([k], z3.And(0 <= k, k < z3.Length(OL), keyof(OL[k]) == kof(F1[j], False))))),
+           z3.ForAll([k], z3.Implies(z3.And(0 <= k, k < z3.Length(OL)), z3.And(mentioned(keyof(OL[k]), F0, F1, n0, n1), handed_on(OL[k], keyof(OL[k]), F0, F1, n0, n1)))),
+           z3.ForAll([x], z3.Implies(mentioned(x, F0, F1, n0, n1), z3.Exists([k], z3.And(0 <= k, k < z3.Length(OL), keyof(OL[k]) == x)))),
            z3.ForAll([k, k2], z3.Implies(z3.And(0 <= k, k < k2, k2 < z3.Length(OL)), keyof(OL[k]) != keyof(OL[k2])))] + _adds_state(AL, F2, z3.Length(F2))
-    if view is None: out.append(sp.isnone)
-    else:
-        S = old._ex.term_of(sp.val, old._st)
-        out += [z3.Not(sp.isnone), FLT.xflag(view) == old.exclude_flag, FLT.slist(view) == S]
+    S = old._ex.term_of(sp.val, old._st)
+    if view is None: out.append(z3.Or(sp.isnone, z3.And(old.exclude_flag, z3.Length(S) == 0)))     # no view: nothing was asked for (excluding no species is asking for nothing)
+    else: out += [z3.Not(sp.isnone), FLT.xflag(view) == old.exclude_flag, same_members(FLT.slist(view), S)]
     return out
 
 REG.add(Contract(F_CLI, '_make_config_parser',
     params=[('cfg_file', T.Obj('TextFile')), ('overrides', T.Opt(T.List(T.List(T.Str)))), ('additional', T.Opt(T.List(T.List(T.Str)))), ('remove', T.Opt(T.List(T.List(T.Str)))),
             ('species', T.Opt(T.List(T.Str))), ('exclude_flag', T.Bool)],
     requires=_wellformed_items, result=T.Any, ensures=_mk_post,
-    post_names=['reads-the-named-file', 'each-edit-handed-on-is-the-last-one-given-for-its-item', 'no-overridden-item-is-lost', 'no-removed-item-is-lost', 'one-edit-per-item',
-                'additions-count', 'additions-in-command-line-order', 'filter-as-asked', 'filter-mode', 'filter-species'],
+    post_names=['reads-the-named-file', 'each-edit-handed-on-is-the-last-one-given-for-its-item', 'no-edited-item-is-lost', 'one-edit-per-item',
+                'additions-count', 'additions-in-command-line-order', 'filter-as-asked', 'filter-mode', 'filter-species'],      # (without a view only the first of the three filter clauses exists)
     invariants={0: lambda v, old: _dict_state(v.override_dict, _items(old)[0], _items(old)[1], v._i0, z3.IntVal(0)),
                 1: lambda v, old: _dict_state(v.override_dict, _items(old)[0], _items(old)[1], z3.Length(_items(old)[0]), v._i1),
                 2: lambda v, old: _adds_state(v.additional_list, _items(old)[2], v._i2)},
     ghost={'override_dict': T.ODict(T.Tuple(T.Str, T.Str), T.Obj('ConfigParserOverrideTuple')), 'additional_list': T.Obj('ConfigParserOverrideTuple')},
-    raises_when=lambda v, old, exc: [z3.BoolVal(exc.cls == 'ConfigurationException' or exc.cls == 'ValueError')], on_raise=lambda v, old: [],
+    raises_when=lambda v, old, exc: [z3.BoolVal(exc.cls == 'ConfigurationException')], on_raise=lambda v, old: [], raises_classes=['ConfigurationException'],
     definitions=items_definitions, instantiate_int_foralls=True, carries=['post', 'preserve/0', 'preserve/1', 'preserve/2'], props=['C13', 'C14']))
+REG.get(F_CLI, '_make_config_parser').result_variants = [T.Obj('ConfigParser'), T.Obj('FilteredConfigParser')]
+
+# ---- _do_tabulation: which parser the options ask for (C13: --include-species S / --exclude-species S for ANY S, the empty one included)
+F_QA = 'atsim/potentials/tools/potable/_query_actions.py'; F_ACT = 'atsim/potentials/tools/potable/_actions.py'
+REG.add_class(ClassDecl('<ext>', 'CLIArgs', {'include_species': T.Opt(T.List(T.Str)), 'exclude_species': T.Opt(T.List(T.Str)), 'config_file': T.Obj('TextFile'),
+    'override_item': T.Opt(T.List(T.List(T.Str))), 'add_item': T.Opt(T.List(T.List(T.Str))), 'remove_item': T.Opt(T.List(T.List(T.Str))),
+    'list_items': T.Bool, 'list_item_labels': T.Bool, 'item_value': T.Opt(T.List(T.Str)), 'out_filename': T.Opt(T.Str)}, external=True))     # argparse.Namespace of _parse_command_line
+REG.add_class(ClassDecl('<ext>', 'ArgParser', {}, external=True))
+REG.add(Contract('<ext>', 'ArgParser.error', params=[('self', T.Obj('ArgParser')), ('message', T.Any)], ensures=lambda v, old, res: [],
+    may_raise=lambda v: [('SystemExit', z3.BoolVal(True))], external=True, note='argparse.ArgumentParser.error(message): prints the usage and exits (SystemExit)', props=['C13']))
+for _f, _q, _ps in ((F_QA, 'action_list_items', ['cp']), (F_QA, 'action_list_item_labels', ['cp']), (F_QA, 'action_item_value', ['cp', 'key']), (F_ACT, 'action_tabulate', ['cp', 'outfilename'])):
+    REG.add(Contract(_f, _q, params=[(n_, T.Any) for n_ in _ps], ensures=lambda v, old, res: [], trusted=True, may_raise=lambda v: [('ConfigurationException', z3.Bool('action_rejects_model'))],
+        note='an action of the front end applied to the parser it is given (what it writes is C01-C05, C14, C19); may end in a configuration error', props=['C13']))
+
+AR = ObjSort('CLIArgs')
+def _afield(n, srt): return field('CLIArgs', n, srt)
+a_inc, a_exc = _afield('include_species', z3.SeqSort(StrS)), _afield('exclude_species', z3.SeqSort(StrS))
+a_inc_none, a_exc_none = _afield('include_species?none', BoolS), _afield('exclude_species?none', BoolS)
+def _asked(cp, args):
+    """cp is the (view of the) parser the species options ask for"""
+    if cp.sort() == CPo: return [a_inc_none(args), z3.Or(a_exc_none(args), z3.Length(a_exc(args)) == 0)]      # unfiltered: no include set, and nothing to exclude
+    return [z3.Not(z3.And(a_inc_none(args), a_exc_none(args))),
+            z3.Implies(z3.Not(a_inc_none(args)), z3.And(z3.Not(FLT.xflag(cp)), same_members(FLT.slist(cp), a_inc(args)))),                     # --include-species S (S may be empty): include mode with S
+            z3.Implies(z3.And(a_inc_none(args), z3.Not(a_exc_none(args))), z3.And(FLT.xflag(cp), same_members(FLT.slist(cp), a_exc(args))))]    # --exclude-species S: exclude mode with S
+def _args_items_ok(a):
+    out = []; j = z3.Int('j!ai')
+    for fname, hv in (('override_item', True), ('remove_item', False), ('add_item', True)):
+        F = items_fn(_afield(fname + '?none', BoolS)(a), _afield(fname, StrLL)(a))
+        out.append(z3.ForAll([j], z3.Implies(z3.And(0 <= j, j < z3.Length(F)), item_ok(F[j], z3.BoolVal(hv)))))
+    return out
+def _do_exit(v, old):
+    if 'cp' not in v._frame: return []            # the parser could not be made (configuration error of the file or the edits)
+    return _asked(v._ex.term_of(v._frame['cp'], v._st), old.args)
+REG.add(Contract(F_CLI, '_do_tabulation', params=[('p', T.Obj('ArgParser')), ('args', T.Obj('CLIArgs'))],
+    requires=lambda v: _args_items_ok(v.args),      # items of the form SECTION:KEY[=VALUE] (see _create_override_tuple)
+    ensures=lambda v, old, res: [z3.BoolVal(False)], post_names=['always-leaves-through-sys.exit-or-an-error'],
+    on_raise=_do_exit, raises_when=lambda v, old, exc: [z3.BoolVal(exc.cls in ('SystemExit', 'ConfigurationException'))],
+    carries=['on_raise'], props=['C13']))
